@@ -32,6 +32,12 @@ LIT_TYPES = [
 ]  # fmt: skip
 
 
+FOREIGN_SAME_NAME = [
+    ["ext", "http.client", "HTTPConnection"], ["ext", "http.client", "HTTPResponse"], ["ext", "xmlrpc.client", "ServerProxy"], ["ext", "xmlrpc.client", "Transport"],
+    ["ext", "logging.handlers", "MemoryHandler"], ["ext", "wsgiref.handlers", "BaseHandler"], ["ext", "decimal", "Context"],
+]  # fmt: skip
+
+
 @st.composite
 def packages(draw: Any) -> dict:
     namer = gen.Namer()
@@ -67,6 +73,11 @@ def packages(draw: Any) -> dict:
         inits.append(["from", "._impl", nm, alias])
     for _ in range(draw(st.integers(1, 3))):
         pub.append(gt.func(namer.fresh("fn"), [gt.param(namer.fresh("a"), "pos", draw(st.sampled_from(LIT_TYPES)), None), gt.param(namer.fresh("va"), "vararg", draw(st.sampled_from([["int"], None])), None)], ret=draw(st.sampled_from([["ext", "fractions", "Fraction"], *LIT_TYPES]))))
+    # classes of other libraries: several of one module, and modules of different libraries with the same last name
+    # (http.client / xmlrpc.client, logging.handlers / wsgiref.handlers) - their placeholder stubs share a base name
+    if draw(st.booleans()):
+        foreign = draw(st.lists(st.sampled_from(FOREIGN_SAME_NAME), min_size=2, max_size=4, unique_by=lambda f: f[2]))
+        pub.append(gt.func(namer.fresh("net"), [gt.param(namer.fresh("c"), "pos", f, None) for f in foreign], ret=["none"]))
     mods = [gt.module([pk, "pubmod"], pub), gt.module([pk, "_impl"], impl), gt.module([pk, "shapes"], [gt.klass("Shape", [gt.attr("sides", ["int"], None)])])]
     if other:
         mods.append(gt.module([pk, "othermod"], other))
